@@ -48,6 +48,24 @@ def gen_cases(tier, seed):
         mk(n, wrongcrc=True, crc=True, srvcrc=True)
         for we in (0xC0, 0xA1, 0x00, 0xC3, 0xE1):
             mk(n, wrongend=we, crc=True, srvcrc=True)
+        for ss in (0, 2, 3):
+            for crc in (True, False):
+                mk(n, wrongend_ss=ss, crc=crc, srvcrc=True)
+    # values whose CRC-16 is 0x0000 (all zero, or carrying their own CRC at the end): a checksum of 0 is
+    # a checksum like any other
+    import binascii
+    for n in (7, 8, 20, 50, 200):
+        zero = [0] * n
+        body = [rng.randrange(256) for _ in range(n)]
+        c = binascii.crc_hqx(bytes(body), 0)
+        selfcrc = body + [c >> 8, c & 0xFF]
+        for val in (zero, selfcrc):
+            nseg = (len(val) + 6) // 7
+            mk(len(val), value=val, crc=True, srvcrc=True)
+            for k in sorted({1, nseg, (nseg + 1) // 2}):
+                mk(len(val), value=val, flip=[k], crc=True, srvcrc=True, buffering=1024, reads=[])
+                mk(len(val), value=val, lose=[k], crc=True, srvcrc=True, buffering=1024, reads=[])
+            mk(len(val), value=val, wrongcrc=True, crc=True, srvcrc=True)
     for _ in range(100 if tier == "quick" else 1500):
         n = rng.randrange(8, 1200)
         nseg = (n + 6) // 7
@@ -75,12 +93,12 @@ def main():
     val = tlc.validate_traces("Trace_SdoBlock", traces, cfg="Trace.cfg", jobs=args.jobs)
     for rej in val.rejects:
         c = cases[rej.index]
-        dist = bool(c.get("lose") or c.get("flip") or c.get("wrongcrc") or c.get("wrongend"))
+        dist = bool(c.get("lose") or c.get("flip") or c.get("wrongcrc") or c.get("wrongend") or c.get("wrongend_ss") is not None)
         sig = {"clause": rej.why, "disturbed": dist, "crc": bool(c["crc"] and c["srvcrc"]),
                "small_buffer": c["buffering"] not in (0, 1024) and c["buffering"] < 7,
                "hang": bool(results[rej.index].get("hang"))}
         v.report(sig, f"{rej.why} [len={len(c['value'])} crc={c['crc']}/{c['srvcrc']} lose={c.get('lose')} "
-                      f"flip={c.get('flip')} wrongcrc={c.get('wrongcrc')} wrongend={c.get('wrongend')} "
+                      f"flip={c.get('flip')} wrongcrc={c.get('wrongcrc')} wrongend={c.get('wrongend')}/{c.get('wrongend_ss')} "
                       f"buffering={c['buffering']} reads={c['reads']}] event={str(rej.event)[:200]}",
                  {"case": c, "step": rej.step, "why": rej.why, "spec_state": rej.state,
                   "trace_tail": traces[rej.index]["ev"][max(0, rej.step - 4):rej.step + 1]})
@@ -88,7 +106,7 @@ def main():
     obs = 0
     outcome = {}
     for c, t in zip(cases, traces):
-        dist = bool(c.get("lose") or c.get("flip") or c.get("wrongcrc") or c.get("wrongend"))
+        dist = bool(c.get("lose") or c.get("flip") or c.get("wrongcrc") or c.get("wrongend") or c.get("wrongend_ss") is not None)
         end = t["ev"][-1]
         key = ("disturbed" if dist else "clean") + ("+crc" if c["crc"] and c["srvcrc"] else "") + ":" + end["e"]
         outcome[key] = outcome.get(key, 0) + 1
